@@ -1289,7 +1289,7 @@ package astits
 // descriptor.go, write side: the length announced for a descriptor loop is the sum of what each descriptor occupies
 // (2 bytes of tag and length plus the body length, no 8-bit overflow on the way).
 //@ func calcDescriptorsLength
-//@   requires 0 <= len(ds) && allocated(ds) && forall(k, 0, len(ds), descOK(ds[k]))
+//@   requires 0 <= len(ds) && allocated(ds) && forall(k, 0, len(ds), descOK(ds[k]) && ds[k].Tag != 0x45)
 //@   loop 0 invariant [C14,C13,C09] idx: rangeindex == iter - 1 && iter <= len(ds)
 //@   loop 0 assert [C14,C13,C09] step: length == pre(length) + 2 + u16(retof(calcDescriptorLength, 0))
 
@@ -1491,30 +1491,46 @@ package astits
 // The body length of a descriptor as a function of its tag and content; the four tags whose writers are not under
 // contract are excluded from what is claimed.
 //@ func calcDescriptorLength
-//@   requires descOK(d)
+//@   requires descOK(d) && (d.Tag == 0x45 && d.VBIData != nil ==> okVBIData(d.VBIData))
 //@   ensures [C14,C13,C09] len: tagCovered(d.Tag) ==> result == u8(dLen(d))
 
 // writeDescriptor: the length byte announces exactly the number of body bytes that follow, for every covered tag.
 //@ func writeDescriptor
-//@   requires aligned(w) && 0 <= wN(w) && wN(w) < 0x080000000000 && descOK(d) && bodyPresent(d) && dLen(d) <= 255
+//@   requires aligned(w) && 0 <= wN(w) && wN(w) < 0x080000000000 && descOK(d) && bodyPresent(d) && dLen(d) <= 255 && (d.Tag == 0x45 ==> okVBIData(d.VBIData))
 //@   modifies writer(w)
 //@   let n0 = old(wN(w))
 //@   ensures [C14,C13,C09] header: result1 == nil ==> wb(w, n0, 0) == d.Tag && (tagCovered(d.Tag) ==> wb(w, n0, 1) == u8(dLen(d)))
 //@   ensures [C14,C13,C09] whole: tagCovered(d.Tag) && result1 == nil ==> wN(w) == n0 + 2 + dLen(d) && result0 == 2 + dLen(d) && aligned(w)
 //@   ensures [C14,C13,C09] prefix: wPrefix(w)
 
+// VBI data: a service occupies its id, a length byte and then one byte per line descriptor (known service ids) or one
+// reserved byte. The length function and the writer advance by exactly that per service (loop assertions); with one
+// service the announced length is that quantity. The descriptor is not part of dLen (no closed form for the sum).
+//@ func calcDescriptorVBIDataLength
+//@   requires d != nil ==> okVBIData(d)
+//@   loop 0 invariant [C14,C13,C09] idx: rangeindex == iter - 1 && iter <= len(d.Services) && 0 <= ret && ret <= 257 * iter && (iter == 0 ==> ret == 0) && (iter == 1 ==> ret == vbiSvcLen(d.Services[0]))
+//@   loop 0 assert [C14,C13,C09] step: ret == pre(ret) + vbiSvcLen(s)
+//@   ensures [C14,C13,C09] none: d == nil || len(d.Services) == 0 ==> result == 0
+//@   ensures [C14,C13,C09] one: d != nil && len(d.Services) == 1 ==> result == u8(vbiSvcLen(d.Services[0]))
+//@ func writeDescriptorVBIData
+//@   opt noloopframe
+//@   opt noframe
+//@   requires aligned(w) && 0 <= wN(w) && wN(w) < 0x100000000000 && okVBIData(d)
+//@   modifies writer(w)
+//@   loop 0 invariant [C14,C13,C09] idx: rangeindex == iter - 1 && iter <= len(d.Services) && aligned(w) && b.err == nil && b.w == w && wN(w) >= old(wN(w)) && wN(w) <= old(wN(w)) + 257 * iter && okVBIData(d) && wPrefix(w)
+//@   loop 1 invariant [C14,C13,C09] lines: rangeindex == iter - 1 && iter <= len(item.Descriptors) && aligned(w) && b.err == nil && b.w == w && wN(w) == atentry(wN(w)) + iter && okVBIData(d) && vbiKnown(item.DataServiceID) && wPrefix(w)
+//@   loop 0 assert [C14,C13,C09] step: wN(w) == pre(wN(w)) + vbiSvcLen(item)
+//@   ensures [C14,C13,C09] aligned: aligned(w) && result == nil
+//@   ensures [C14,C13,C09] prefix: wPrefix(w)
+
 // Not under contract (items of variable size, nested loops, pointer-to-slice bodies): nothing is assumed about
 // the lengths they compute or emit, and nothing is claimed for their tags.
 //@ extern calcDescriptorExtendedEventLength
 //@ extern calcDescriptorExtensionLength
-//@ extern calcDescriptorVBIDataLength
 //@ extern writeDescriptorExtendedEvent
 //@   modifies writer(w)
 //@   ensures [C14,C13,C09] prefix: wPrefix(w)
 //@ extern writeDescriptorExtension
-//@   modifies writer(w)
-//@   ensures [C14,C13,C09] prefix: wPrefix(w)
-//@ extern writeDescriptorVBIData
 //@   modifies writer(w)
 //@   ensures [C14,C13,C09] prefix: wPrefix(w)
 // END generated descriptor write contracts
